@@ -53,6 +53,7 @@ def run(ctx):
             extra={('tempos', '[]', 'qpm'): ('aug:Div', 'stretch_factor')}, in_place=flag)
   interp_knots(ctx)
   adjust(ctx, tp)
+  redundant_means_restating(ctx)
   concat(ctx)
   repeat(ctx)
 
@@ -713,9 +714,61 @@ def repeat_passes_through_concat(ctx, fi):
            construct='repeat: cut(concatenate(copies))', definite=True)
 
 
+def redundant_means_restating(ctx, rule='CONCAT/redundant-is-restating-the-predecessor'):
+  """remove_redundant_data drops a tempo / time signature / key event when it *restates the value in force*, i.e. equals its
+  predecessor in time order apart from the time.  A de-duplication by "seen anywhere before" (a growing set tested with `in`) also
+  drops a value that returns after a different one (A B A): the second A is a change, and removing it leaves B in force."""
+  fi = ctx.func(SL + ':remove_redundant_data')
+  fn = fi.node
+  loops = [lp for lp in ast.walk(fn) if isinstance(lp, ast.For) and any(isinstance(a, ast.Attribute) and a.attr in ('tempos', 'time_signatures', 'key_signatures') for a in ast.walk(lp.iter))]
+  cons = 'remove_redundant_data compares a state event with its predecessor, not with everything seen before'
+  if not loops:
+    why = 'cannot classify: no loop over the tempo / time-signature / key lists in remove_redundant_data'
+    ctx.ob(rule, fi, fn, False, why, construct=cons, unknown=why)
+    return
+
+  def seen_set(node):
+    """a set that is grown with .add and tested with `in` inside `node`"""
+    sets = set(t.id for s_ in ast.walk(node) if isinstance(s_, ast.Assign) and isinstance(s_.value, ast.Call) and dotted(s_.value.func) == 'set' and not s_.value.args
+               for t in s_.targets if isinstance(t, ast.Name))
+    grown = set(c.func.value.id for c in ast.walk(node) if isinstance(c, ast.Call) and isinstance(c.func, ast.Attribute) and c.func.attr == 'add' and isinstance(c.func.value, ast.Name))
+    tested = set(c.comparators[0].id for c in ast.walk(node) if isinstance(c, ast.Compare) and len(c.ops) == 1 and isinstance(c.ops[0], (ast.In, ast.NotIn)) and isinstance(c.comparators[0], ast.Name))
+    return sorted(sets & grown & tested)
+  for lp in loops:
+    where = [(lp, seen_set(lp))]
+    for c in ast.walk(lp):
+      g = fi.nested.get(c.func.id) if isinstance(c, ast.Call) and isinstance(c.func, ast.Name) else None
+      if g is not None:
+        where.append((g.node, seen_set(g.node)))
+    hit = [(n, ss) for n, ss in where if ss]
+    ctx.ob(rule, fi, hit[0][0] if hit else lp, not hit, 'no "seen before" set decides which state events are dropped' if not hit else
+           'the state events that are dropped are chosen with the set `%s` of everything seen before: a tempo / meter / key that returns after a different one (A, B, A) is dropped although it '
+           'is a change, and B stays in force from there on' % hit[0][1][0], construct=cons, definite=True)
+
+
+def repeat_cut_takes_every_event(ctx, fi):
+  """Location-independent: "the concatenation of enough copies cut at the requested duration" is cut with extract_subsequence (or the
+  splitter under it), which cuts notes *and* tempo / meter / key / chord / beat / pedal events at the duration.  trim_note_sequence
+  cuts the notes only: everything else of the last copy survives at or after the requested duration."""
+  fn = fi.node
+  cuts = [c for c in U.calls_in(fn) if (dotted(c.func) or '').split('.')[-1] in ('extract_subsequence', '_extract_subsequences', 'trim_note_sequence')]
+  cons = 'repeat_sequence_to_duration cuts the repetition with extract_subsequence'
+  if not cuts:
+    why = 'cannot classify: repeat_sequence_to_duration calls none of extract_subsequence / _extract_subsequences / trim_note_sequence'
+    ctx.ob('REPEAT/cut-takes-every-event', fi, fn, False, why, construct=cons, unknown=why)
+    return
+  notes_only = [c for c in cuts if (dotted(c.func) or '').split('.')[-1] == 'trim_note_sequence']
+  full = [c for c in cuts if c not in notes_only]
+  ok = bool(full) and not notes_only
+  ctx.ob('REPEAT/cut-takes-every-event', fi, (notes_only or cuts)[0], ok, 'the repetition is cut by %s' % norm_text(full[0].func) if ok else
+         'the repetition is cut with trim_note_sequence, which removes and clips notes only: the tempo, time-signature, key, chord, beat and pedal events of the copy that is cut stay where '
+         'they are, at or after the requested duration', construct=cons, definite=bool(notes_only) and not full)
+
+
 def repeat(ctx):
   fi = ctx.func(SL + ':repeat_sequence_to_duration')
   repeat_passes_through_concat(ctx, fi)
+  repeat_cut_takes_every_event(ctx, fi)
   fi = Canon(fi, roles.discover(fi, {
       'num_repeats': lambda fn: roles.assigned_where(fn, lambda v, st: any(isinstance(b, ast.BinOp) and isinstance(b.op, (ast.Div, ast.FloorDiv)) and
                                                                           norm_text(b.left) == 'duration' for b in ast.walk(v))),
